@@ -145,6 +145,15 @@ Theorem C09_formulate_only_callers_arguments :
   = ["return_t_hat=False/n=1"; "return_t_hat=False/n=2"; "return_t_hat=True/n=1"; "return_t_hat=True/n=2"]%string.
 Proof. exact formulate_only_callers_arguments. Qed.
 
+(* the same when the phase space is a plain FUNCTION and formulate was called before, in the same
+   process, with ANOTHER function of the same qualified name (closures of one factory): after
+   unfolding the widths one level only the caller's function rhoX occurs, never the earlier rhoDecoy *)
+Theorem C09_formulate_history_only_callers_function :
+  forallb hist_ok gen_marked_hist = true /\
+  map fst gen_marked_hist
+  = ["return_t_hat=False/n=1"; "return_t_hat=False/n=2"; "return_t_hat=True/n=1"; "return_t_hat=True/n=2"]%string.
+Proof. exact formulate_history_only_callers_function. Qed.
+
 (* ---- 3c. LIMIT OF THE UNITARITY THEOREMS.  They assume K real symmetric, which for the
         relativistic parametrisation rests on width_real_nonneg: every EnergyDependentWidth real and
         >= 0.  That hypothesis FAILS for a pole below a channel's threshold with PhaseSpaceFactor (the
@@ -196,6 +205,7 @@ Print Assumptions C09_K_param_real_symmetric_nr.
 Print Assumptions C09_K_param_real_symmetric_rel.
 Print Assumptions C09_K_param_entries_covered.
 Print Assumptions C09_formulate_only_callers_arguments.
+Print Assumptions C09_formulate_history_only_callers_function.
 Print Assumptions C09_width_not_real_below_threshold_refuted.
 Print Assumptions C09_imaginary_is_not_real.
 Print Assumptions C09_unitary_with_library_K_nr_2.
